@@ -187,7 +187,7 @@ class Prop:
             "inputs before/after).  Enumerated: every pair of sibling-unique labelled forests with <= 3 nodes each over 3 labels, one "
             "representative per renaming of the labels (thorough: plus all pairs (4 nodes, <= 3 nodes) and seeded samples of the "
             "(<= 3, 4) and (4, 4) pairs); random: mutated copies (add/remove/move/swap/relabel/sort, 0-6 steps) of random trees with up "
-            "to 14 (thorough 30) nodes over 3-6 labels, unrelated random pairs, identical copies, the same tree object on both sides; pairs of TypedTrees with random kinds; pairs whose nodes carry user metadata; every diff is run twice on the same inputs and each input is diffed against a fresh copy of itself; histories: all diffs in both directions first, then in-place edits of the same tree objects (re-order, rename, move-away + add: child counts kept), then the observed diffs of the CURRENT inputs; "
+            "to 14 (thorough 30) nodes over 3-6 labels, unrelated random pairs, identical copies, the same tree object on both sides; pairs of TypedTrees with random kinds; pairs built with a calc_data_id hook or explicit per-label data_ids (ids agree with the data but are not hash(data)); pairs whose nodes carry user metadata; every diff is run twice on the same inputs and each input is diffed against a fresh copy of itself; histories: all diffs in both directions first, then in-place edits of the same tree objects (re-order, rename, move-away + add: child counts kept), then the observed diffs of the CURRENT inputs; "
             "plus an out-of-domain stream (equal-comparing objects under explicit data_ids, ids shared by unequal data; diff may lose or "
             "duplicate nodes) on which model = implementation and 'inputs unchanged' are checked.  The oracle is "
             "applied exactly on the pairs inside the theorems' domain (computed independently on both sides).  distinct = distinct "
@@ -327,6 +327,27 @@ class Prop:
                 return [[l, rng.choice(["k1", "k2"]), d, kinds(ch)] for l, _, d, ch in nodes]
 
             yield dict(univ=LABELS[:k], t0=kinds(t0), t1=kinds(t1), typed=True)
+        # custom data_ids that agree with the data but are NOT hash(data): a calc_data_id hook on both input trees, or
+        # explicit ids chosen per label (inside the domain: all laws, the move pairing in particular, apply)
+        ncust = 160 if tier == "quick" else 1000
+        for i in range(ncust):
+            k = rng.choice([3, 4, 6])
+            t0 = rand_nodes(rng, rng.randint(2, 10), k)
+            t1 = mutate(rng, t0, k, rng.randint(1, 5))
+
+            def with_ids(nodes, kind):
+                return [[l, kind, f"id-{l}", with_ids(ch, kind)] for l, _, _, ch in nodes]
+
+            v = i % 4
+            if v == 0:
+                yield dict(univ=LABELS[:k], t0=t0, t1=t1, calc="name")
+            elif v == 1:
+                yield dict(univ=LABELS[:k], t0=with_ids(t0, None), t1=with_ids(t1, None))
+            elif v == 2:
+                yield dict(univ=LABELS[:k], t0=with_ids(t0, "k1"), t1=with_ids(t1, "k1"), typed=True)
+            else:
+                yield dict(univ=LABELS[:k], t0=[[l, "k1", d, c] for l, _, d, c in t0], t1=[[l, "k1", d, c] for l, _, d, c in t1],
+                           typed=True, calc="name")
         # known finding D91: default-id trees over an alphabet with a hash collision between unequal labels (-1, -2)
         ncoll = 25 if tier == "quick" else 150
         for i in range(ncoll):
@@ -368,8 +389,10 @@ class Prop:
         base = H.alloc_count()
         typed = bool(desc.get("typed"))
         cls = H.TypedTree if typed else Tree
-        t0 = cls("T0")
-        t1 = cls("T1")
+        # trees built with a calc_data_id hook (desc["calc"]: "name" -> data_id = str(data)): ids differ from hash(data)
+        calc = B.calc_fn(desc.get("calc"))
+        t0 = cls("T0", calc_data_id=calc)
+        t1 = cls("T1", calc_data_id=calc)
         try:
             B.add_nodes(t0._root, desc["t0"], U, typed)
             if desc.get("alias"):
@@ -421,7 +444,7 @@ class Prop:
         moved_to_dids = set()
         fails = []
         kfails = []
-        default_ids = not any_explicit_id(desc["t0"]) and not any_explicit_id(desc["t1"])
+        default_ids = not any_explicit_id(desc["t0"]) and not any_explicit_id(desc["t1"]) and not desc.get("calc")
         marks = 0
         ambiguous = False
         errors = 0
@@ -971,6 +994,11 @@ def ucanon(s):
 
 
 CORPUS = [
+    # custom ids (seeded C11-12): a move between parents in trees built with a calc_data_id hook / explicit ids per label
+    dict(univ=LABELS[:4], calc="name", t0=[[0, None, None, [[2, None, None, []]]], [1, None, None, []]],
+         t1=[[0, None, None, []], [1, None, None, [[2, None, None, []]]]]),
+    dict(univ=LABELS[:4], t0=[[0, None, "id-0", [[2, None, "id-2", []]]], [1, None, "id-1", []]],
+         t1=[[0, None, "id-0", []], [1, None, "id-1", [[2, None, "id-2", []]]]]),
     # known finding D91: hash(-1) == hash(-2): the t1 child -2 is neither matched (==) nor added (data_id): lost
     dict(univ=["i:-1", "i:-2", "s:a"], t0=[[0, None, None, []]], t1=[[1, None, None, []]]),
     # history (seeded C11-9): diff, re-order / move-away+add in the second tree keeping the child counts, diff again
